@@ -257,9 +257,131 @@ func finalState(e engine, loc string) []string {
 	return out
 }
 
+// pendingLimit: the HTTP service behind its own listener with a limit on pending requests
+// (HTTPService.SetMaxPending, rulesys -max-pending).  Six clients, each owning one location, send
+// slow events and fact additions on fresh connections, so that the limit is reached while the
+// accept loop runs.  A refused request is an error for its client, nothing more: the process
+// lives, every client finishes, and each location ends with exactly the facts whose addition
+// was acknowledged.
+func pendingLimit(r *rep.Report, linear bool) {
+	se := newSysEngine(linear)
+	h, err := service.NewHTTPService(drv.Ctx(), &service.Service{System: se.s})
+	if err != nil {
+		r.Violate("", "cannot build the HTTP service: "+err.Error(), nil)
+		return
+	}
+	h.SetMaxPending(2)
+	l, err := service.NewListener(drv.Ctx(), h, "127.0.0.1:0", false)
+	if err != nil {
+		r.Violate("", "cannot listen: "+err.Error(), nil)
+		return
+	}
+	srv := &http.Server{Handler: h}
+	go srv.Serve(l)
+	defer srv.Close()
+	base := "http://" + l.Addr().String()
+	post := func(cl *http.Client, uri string, m map[string]interface{}) (int, string) {
+		body, _ := json.Marshal(m)
+		resp, err := cl.Post(base+uri, "application/json", bytes.NewReader(body))
+		if err != nil {
+			return 0, err.Error()
+		}
+		defer resp.Body.Close()
+		b, _ := ioutil.ReadAll(resp.Body)
+		return resp.StatusCode, strings.TrimSpace(string(b))
+	}
+	const clients = 6
+	type outcome struct {
+		acked   map[string]bool
+		refused int
+		other   []string
+	}
+	outs := make([]outcome, clients)
+	var wg sync.WaitGroup
+	gate := make(chan struct{})
+	for c := 0; c < clients; c++ {
+		wg.Add(1)
+		go func(c int) {
+			defer wg.Done()
+			cl := &http.Client{Timeout: 30 * time.Second, Transport: &http.Transport{DisableKeepAlives: true}}
+			loc := fmt.Sprintf("pl%d", c)
+			outs[c].acked = map[string]bool{}
+			<-gate
+			// every request is tried until it is answered by the service itself (at most 200 times)
+			try := func(uri string, m map[string]interface{}) (int, string) {
+				for i := 0; i < 200; i++ {
+					st, body := post(cl, uri, m)
+					if st == 200 || st == 400 {
+						return st, body
+					}
+					outs[c].refused++ // 429, or the connection was closed on us
+					time.Sleep(5 * time.Millisecond)
+				}
+				return -1, "never answered"
+			}
+			if st, body := try("/api/loc/rules/add", map[string]interface{}{"location": loc, "id": "slow", "rule": map[string]interface{}{"when": map[string]interface{}{"pattern": map[string]interface{}{"go": "slow"}}, "action": map[string]interface{}{"code": "Env.sleep(60e6); 'slept'"}}}); st != 200 {
+				outs[c].other = append(outs[c].other, fmt.Sprintf("rules/add: %d %s", st, body))
+				return
+			}
+			for i := 0; i < 6; i++ {
+				if st, body := try("/api/loc/events/ingest", map[string]interface{}{"location": loc, "event": map[string]interface{}{"go": "slow"}}); st != 200 || !strings.Contains(body, "slept") {
+					outs[c].other = append(outs[c].other, fmt.Sprintf("events/ingest: %d %s", st, body))
+				}
+				id := fmt.Sprintf("f%d", i)
+				st, body := post(cl, "/api/loc/facts/add", map[string]interface{}{"location": loc, "id": id, "fact": map[string]interface{}{"n": float64(i)}})
+				switch st {
+				case 200:
+					outs[c].acked[id] = true
+				case 400:
+					outs[c].other = append(outs[c].other, fmt.Sprintf("facts/add: %d %s", st, body))
+				default:
+					outs[c].refused++
+				}
+			}
+		}(c)
+	}
+	done := make(chan struct{})
+	go func() { close(gate); wg.Wait(); close(done) }()
+	select {
+	case <-done:
+	case <-time.After(150 * time.Second):
+		r.Violate("", "clients of a service with a pending limit did not finish within 150 s", rep.J{"linear": linear})
+		return
+	}
+	refusals := 0
+	for c := 0; c < clients; c++ {
+		loc := fmt.Sprintf("pl%d", c)
+		r.Case(true, fmt.Sprint("pending-limit", linear, c))
+		refusals += outs[c].refused
+		wit := rep.J{"linear": linear, "location": loc, "max_pending": 2, "acknowledged_adds": outs[c].acked, "refused_attempts": outs[c].refused, "other_answers": outs[c].other}
+		if len(outs[c].other) > 0 {
+			r.Violate("", "under a pending limit a request was answered wrongly (neither its result nor a refusal)", wit)
+			continue
+		}
+		for i := 0; i < 6; i++ {
+			id := fmt.Sprintf("f%d", i)
+			_, gerr := se.s.GetFact(drv.Ctx(), loc, id)
+			if have := gerr == nil; have != outs[c].acked[id] {
+				wit["id"], wit["stored"] = id, have
+				r.Violate("", "under a pending limit a location does not hold exactly the facts whose addition was acknowledged", wit)
+				break
+			}
+		}
+	}
+	r.Count("pending_limit_refusals_observed", refusals)
+	if refusals == 0 {
+		r.Inconclusive("the pending limit was never reached: no refusal observed")
+	}
+}
+
 func main() {
 	e := rep.GetEnv()
 	r := rep.New(e)
+	if e.Batch == 0 {
+		r.Journal(rep.J{"scenario": "pending-limit"})
+		pendingLimit(r, false)
+		pendingLimit(r, true)
+	}
 	rounds := e.Pick(12, 60)
 	rng := rand.New(rand.NewSource(e.BatchSeed()))
 	r.Note("hooks_compiled_in", hook.Enabled())
